@@ -340,9 +340,23 @@ class Party(sut.BaseAlgorithm):
         elif fk == "malformed":
             sched = dict(self.script(t, nonempty=True))
             how = fault["how"]
+            var = fault.get("variant", "plus1")
+            if how == "ragged" and var in ("one_short", "first_long_rest_one"):
+                sched = dict(self.script(t, force_len=2 + fault["at_call"] % 3, nonempty=True))
             if how == "ragged" and len(sched) >= 2:
-                k0 = sorted(sched.keys())[0]
-                sched[k0] = list(sched[k0]) + [0]
+                keys = list(sched.keys())
+                if var == "one_short":            # one row (not the first of the mapping) holds a single value
+                    sched[keys[-1]] = [list(sched[keys[-1]])[0]]
+                elif var == "first_long_rest_one":   # the mapping's first row has the full length, every other row one value
+                    for k_ in keys[1:]:
+                        sched[k_] = [list(sched[k_])[0]]
+                elif var == "last_long":
+                    sched[keys[-1]] = list(sched[keys[-1]]) + [0]
+                elif var == "empty_row":
+                    sched[keys[-1]] = []
+                else:
+                    k0 = sorted(keys)[0]
+                    sched[k0] = list(sched[k0]) + [0]
             else:
                 how = "unknown_station"
                 L = len(next(iter(sched.values())))
